@@ -1,5 +1,6 @@
 """C10 — failed or panicking decodes release everything exactly once (DESIGN §6 C10)."""
 from .common import *
+import re
 from .. import shape, types as T
 
 LEVEL = 'other'
@@ -35,7 +36,7 @@ AUDITED_UNSAFE = {
     ('<[T; N] as Decode>::decode_into', 'assert_decoding_finished'): 'whole array initialised (bulk read or completed loop)',
     ('<[T; N] as Decode>::decode_into', 'deref-raw'): 'MaybeUninit<[T;N]> viewed as [MaybeUninit<T>;N]',
     ('array-guard::drop', 'assume_init_drop'): 'only the first count elements, which are initialised',
-    ('helper:bulk::{closure#0}', 'set_len'): 'within the capacity reserved by decode_vec_chunked; element type is plain data',
+    ('helper:bulk', 'set_len'): 'within the capacity reserved by decode_vec_chunked; element type is plain data',
     ('helper:with_len', 'transmute'): 'Vec<P> -> Vec<T> with T == P by TYPE_INFO',
     ('<compact::ArrayVecWrapper<N> as Output>::write', 'set_len'): 'guarded by the capacity assert',
 }
@@ -56,7 +57,8 @@ def census(out, facts):
     for f in facts.fns:
         if not f.get('thir'):
             continue
-        key = stable_fkey(facts, f)
+        # a function and its closures are one unit for the audited table (closure numbering shifts when one is added)
+        key = re.sub(r'::\{closure#\d+\}', '', stable_fkey(facts, f))
         if G and G.get('drop') is f:
             key = 'array-guard::drop'        # the guard is identified by structure, not by its name
         for node, parents in _walk_thir(f['thir'], [], f):
